@@ -210,7 +210,7 @@ class WorldProc:
 class Hist:
     """One history: talks to the harness and mirrors the snapshot layout of World/Observe.v."""
 
-    def __init__(self, nu, nd, nt, maxp, ubal, fbal, tdecs, stream="random", note=None, look=None, proxies=0):
+    def __init__(self, nu, nd, nt, maxp, ubal, fbal, tdecs, stream="random", note=None, look=None, proxies=0, tf=None):
         self.nu, self.nd, self.nt, self.maxp = nu, nd, nt, maxp
         self.ubal, self.fbal, self.tdecs = ubal, fbal, list(tdecs)
         self.stream, self.note = stream, note
@@ -219,6 +219,9 @@ class Hist:
         self.proc = WorldProc()
         if proxies:
             self.proc.ask("proxies %d" % proxies)
+        self.tf = tf            # (d, u): bank denom d is spelled as the token-factory denom of user u ("factory/<address>/sub")
+        if tf:
+            self.proc.ask("tfdenom %d %d" % tf)
         if look is not None:
             self.proc.ask("lookalike %d %d" % look)
         out = self.proc.ask("init %d %d %d %d %d %d %s" % (nu, nd, nt, maxp, ubal, fbal, " ".join(str(t) for t in tdecs)))
@@ -378,7 +381,7 @@ class HistCase(Case):
         Case.__init__(self, "hist", [], [], h.stream, h.note)
         self.h = h
         self.results = []
-        self._key = hashlib.sha1(repr((h.nu, h.nd, h.nt, h.maxp, h.ubal, h.fbal, h.tdecs, h.look, h.proxies,
+        self._key = hashlib.sha1(repr((h.nu, h.nd, h.nt, h.maxp, h.ubal, h.fbal, h.tdecs, h.look, h.proxies, h.tf,
                                        [(s[0], s[1]) for s in h.steps])).encode()).hexdigest()
 
     def key(self):
@@ -410,7 +413,8 @@ class HistCase(Case):
         return {"checker": "hist", "stream": self.stream, "note": self.note,
                 "world": {"users": h.nu, "denoms": h.nd, "tokens": h.nt, "maxpairs": h.maxp, "user_balance": str(h.ubal),
                           "factory_balance": str(h.fbal), "token_decimals": h.tdecs,
-                          "lookalike": list(h.look) if h.look else None, "proxies": h.proxies},
+                          "lookalike": list(h.look) if h.look else None, "proxies": h.proxies,
+                          "tfdenom": list(h.tf) if h.tf else None},
                 "steps": [{"op": op_line(s[0]), "ok": s[1], "swap_attrs": [str(x) for x in s[2]],
                            "quote": [str(x) for x in s[3]], "changed_slots": len(s[4]),
                            "queries": [q[0] for q in s[5]]} for s in h.steps]}
@@ -444,7 +448,7 @@ def replay_hist(j):
     """rebuild a history from its JSON form by re-running the operations on the real code"""
     w = j["world"]
     h = Hist(w["users"], w["denoms"], w["tokens"], w["maxpairs"], int(w["user_balance"]), int(w["factory_balance"]),
-             w["token_decimals"], "replay", look=tuple(w["lookalike"]) if w.get("lookalike") else None, proxies=w.get("proxies", 0))
+             w["token_decimals"], "replay", look=tuple(w["lookalike"]) if w.get("lookalike") else None, proxies=w.get("proxies", 0), tf=tuple(w["tfdenom"]) if w.get("tfdenom") else None)
     for s in j["steps"]:
         for ql in s.get("queries", []):
             kq = ql.split()[0]
@@ -822,6 +826,18 @@ def general_histories(rng, tier, n_hist=None, steps=None):
             h.do(("swap", q, USER0 + 1, [(1, amt)], ("n", 1), amt, None, None, None), quote)
         else:
             setup_pairs(h, rng, kinds)
+        # directed: a direct swap that also carries a coin of a denom the pair does not trade (small and sizeable), quoted first
+        for q_ in h.pairs()[:3]:
+            for off in h.pair_assets(q_):
+                third = [d for d in range(h.nd) if ("n", d) not in h.pair_assets(q_)]
+                if off[0] != "n" or not third or h.reserves(q_)[0] == 0:
+                    continue
+                u_ = USER0 + 1
+                amt = max(1, h.reserves(q_)[h.pair_assets(q_).index(off)] // 20)
+                for extra in (7, max(1, min(h.reserves(q_)) // 3)):
+                    if h.bank(u_, off[1]) >= amt and h.bank(u_, third[0]) >= extra:
+                        quote = h.query("sim %d %s %d" % (q_, a_line(off), amt))
+                        h.do(("swap", q_, u_, sorted([(off[1], amt), (third[0], extra)]), off, amt, None, None, None), quote)
         for _ in range(steps):
             u = rng.choice(h.users())
             pairs = h.pairs()
@@ -958,7 +974,8 @@ def auth_matrix(rng, tier):
     factory holds, existing pair), so that only the authorisation check can reject it; the owner goes last."""
     cases = []
     for rep in range({"quick": 1, "thorough": 4}[tier]):
-        h = Hist(4, 3, 3, 6, 10 ** 12, 1000, [6, 6, 8], "directed-matrix", "C14 caller-role matrix")
+        # denom 1 is spelled as the token-factory denom of the last user, who is one of the non-owner callers of the matrix
+        h = Hist(4, 3, 3, 6, 10 ** 12, 1000, [6, 6, 8], "directed-matrix", "C14 caller-role matrix", tf=(1, USER0 + 3))
         created = setup_pairs(h, rng, [(("n", 0), ("t", 2)), (("t", 2), ("t", 3))])
         p = created[0]
         lp = h.pair_lp(p)
@@ -1168,7 +1185,12 @@ def commission_histories(rng, tier):
                     if amt <= 0:
                         continue
                     quote = h.query("sim %d %s %d" % (p, a_line(offer), amt))
-                    if offer[0] == "n":
+                    other = h.pair_assets(p)[1 - i]
+                    if offer[0] == "n" and other[0] == "n" and amt % 2 == 1 and h.bank(u, other[1]) > 0:
+                        # the pair's other native coin rides along: it reaches the pool before the swap is priced
+                        ex = min(h.bank(u, other[1]), max(1, r[1 - i] // 9))
+                        h.do(("swap", p, u, sorted([(offer[1], amt), (other[1], ex)]), offer, amt, None, None, None))
+                    elif offer[0] == "n":
                         h.do(("swap", p, u, [(offer[1], amt)], offer, amt, None, None, None), quote)
                     else:
                         h.do(("send", offer[1], u, p, amt, ("hswap", offer, amt, None, None, None)), quote)
@@ -1434,8 +1456,9 @@ def registry_histories(rng, tier, big=False):
         h.do(("fac_update_config", owner, None, 8))
         if h.pairs():
             h.do(("fac_migrate", owner, h.pairs()[0], 2))
-        for d in ((0, 1, 0, 3, 4) if n <= 14 else tuple(range(nd_)) + (0,)):
-            h.do(("fac_add_native", owner, d, rng.choice([0, 9, 12, 18])))
+        for d in ((0, 1, 0, 3, 4, 0, 1) if n <= 14 else tuple(range(nd_)) + (0,)):
+            # decimals are any u8: also values 20 and more away from every cw20's (at most 18)
+            h.do(("fac_add_native", owner, d, rng.choice([0, 9, 12, 18, 26, 38, 255])))
             h.do(("fac_add_native", USER0 + 1, d, 3))
         cases.append(h.finish())
     # unregistered denom / denom the factory holds none of
